@@ -1,3 +1,722 @@
 import SJ.Proofs.GoNum
 import SJ.Proofs.GoRebuildLemmas
 import SJ.Model.Object
+set_option linter.unusedVariables false
+set_option linter.unusedSimpArgs false
+/-
+GoArrNum — the hand model of the bulk numeric accessors (`Model/Object.lean`: `View.asNum` at its three kinds
+`asFloat | asInteger | asUint64`, on which `C12_bulk_eq_traversal` of `Proofs/Numeric.lean` rests) IS the meaning of the
+syntax trees the translator printed from `parsed_array.go` l.149-292 (`Generated/GoSrc.lean`: `goArray_AsFloat`,
+`goArray_AsInteger`, `goArray_AsUint64`).
+
+For every `pj`, every view `v`, every `fuel`, the store `[("a.off", v.off), ("a.lim", v.lim)]` and the tape `pj.tape`, the
+outcome of `runFun … fuel` and `View.asNum pj kind v #[] fuel` — THE SAME fuel: the model spends one unit per iteration,
+the interpreter's `.loop` too, nothing else in the three trees consumes fuel — are related by `SimA`:
+
+  model `.ok ws`     ⇔  interpreter returns `[enc ws, nil]`    (`enc ws` = `.u64s ws.toList` for AsFloat (bits) and AsUint64,
+                                                                `.ints (ws.toList.map toInt64)` for AsInteger)
+  model `.error _`   ⇔  interpreter returns `[nil slice, non-nil error]`
+  model `.panic`     ⇔  interpreter panics (index out of range)
+  model `.diverge`   ⇔  interpreter `.diverge`, and then `fuel ≤ (lim - off) / 2`: with `(lim - off) / 2 + 1` units neither
+                        side runs out (every iteration that continues has read two words inside the view)
+  the interpreter is never `stuck`; the tape is unchanged.
+Each line is an equivalence (`SimA.ok_iff` … `SimA.diverge_iff`, instantiated as `asFloat_ok_iff` …).
+
+Hypotheses.  NONE — not even `v.lim ≤ pj.tape.size`: on a view longer than the array both sides panic at the first word
+beyond the array (the interpreter's `tapeAt` after its view check, the model's `rd`).
+
+Proof.  The three bodies are cut (by `rfl`: `asFloat_body` …) into the statements before the loop (`preS`, the dead capacity
+estimate and `dst`), the loop head (`headS`: `tag := Tag(a.tape.Tape[a.off] >> 56); a.off++`, shared), the `switch` of the
+function (`swOf`, taken out of the generated tree, never copied) and `a.off++`.  Stores are abstract (`Inv`: only `a.off`,
+`a.lim`, `dst` matter), so `tag`/`val` appearing after the first iteration need no case analysis.  `StepRel`: one iteration
+against one unfolding of the model; `loop_sim`: induction on the fuel.
+
+What was checked and AGREES EXACTLY (no model/Go difference found):
+* the unguarded `a.tape.Tape[a.off]` at the loop head  vs  the model's `if a.off >= a.lim then .panic`: a view that does
+  not end with `]` panics on both sides (replay at the end); `len(a.tape.Tape) <= a.off` before the value word  vs
+  `a.lim <= off`: an error on both sides, not a panic.
+* AsFloat: `float64(int64(w))` = `F64.ofInt (toInt64 w)`, `float64(w)` = `F64.ofNat w.toNat`.
+* AsInteger: `val >= math.MaxInt64` (the constant becomes the float 2^63: `constAsFloat_maxInt64`) / `val < math.MinInt64`
+  vs `geInt v 2^63` / `ltInt v (-2^63)`; `int64(val)` = `cvtFloatToInt64` (the model stores `ofInt64` of it, read back by
+  `toInt64`: `toInt64_cvt`); uint: `val > math.MaxInt64` vs `v.toNat > 2^63 - 1`.
+* AsUint64: `val >= math.MaxUint64` (→ 2^64: `constAsFloat_maxUint64`) / `val < 0` vs `geInt v 2^64` / `ltInt v 0` — the D5
+  repair (the tree once tested against `math.MaxInt64`) is in the tree and in the model (replays at the end);
+  `uint64(val)` = `cvtFloatToUint64`; integer: `val < 0` on `int64(w)`, `uint64(int64(w))` = `w` (`ofInt_toInt64`).
+* order of the tests, literal results beside an error (`nil`), the tag dispatch (100, 108, 117, 93, default).
+Not covered by the model's result type (no difference, just not stated by it): the methods advance the receiver's
+`a.off` (pointer receiver); `View.asNum` returns the numbers only.
+An edit of one of the three Go functions changes a generated definition and breaks `as*_body` or `as*_tail`.
+-/
+namespace SJ.GoArrNum
+open SJ SJ.GoSem SJ.Generated SJ.GoIter SJ.GoRebuild SJ.GoNum
+
+def headS : List Stmt := [
+  .assign "tag" (.conv .u8 (.bin .shr (.tapeAt "a" (.v "a.off")) (.int 56))),
+  .assign "a.off" (.bin .add (.v "a.off") (.int 1))]
+def incrS : Stmt := .assign "a.off" (.bin .add (.v "a.off") (.int 1))
+def preS (nilE : Expr) : List Stmt := [
+  .assign "lenEst" (.bin .div (.bin .sub (.bin .sub (.lenTape "a") (.v "a.off")) (.int 1)) (.int 2)),
+  .ite (.bin .lt (.v "lenEst") (.int 0)) [.assign "lenEst" (.int 0)] [],
+  .assign "dst" nilE]
+def retS : Stmt := .ret [(.v "dst"), (.bool false)]
+def swOf (fd : FunDef) : Stmt :=
+  match fd.body with
+  | _ :: _ :: _ :: .loop b :: _ => b.getD 2 .brk
+  | _ => .brk
+
+theorem asFloat_body : goArray_AsFloat.body = preS .nilU ++ [.loop (headS ++ [swOf goArray_AsFloat, incrS]), retS] := rfl
+theorem asInteger_body : goArray_AsInteger.body = preS .nilI ++ [.loop (headS ++ [swOf goArray_AsInteger, incrS]), retS] := rfl
+theorem asUint64_body : goArray_AsUint64.body = preS .nilU ++ [.loop (headS ++ [swOf goArray_AsUint64, incrS]), retS] := rfl
+
+structure Inv (e : Env) (off lim : Nat) (dst : Val) : Prop where
+  off : e.get "a.off" = some (.int off)
+  lim : e.get "a.lim" = some (.int lim)
+  dst : e.get "dst" = some dst
+
+attribute [local simp] exec exec1 execCases evalE evalEs isOneOf binop convert ofE Env.get_set
+
+theorem head_ok (pj : PJ) (e : Env) (off lim : Nat) (d : Val) (f : Nat) (w : UInt64) (h : Inv e off lim d)
+    (hb : off < lim) (hw : pj.tape[off]? = some w) :
+    exec goFuns f headS ⟨e, pj.tape⟩ =
+      .normal ⟨(e.set "tag" (.u8 (tagOf w))).set "a.off" (.int ((off + 1 : Nat) : Int)), pj.tape⟩ := by
+  have hb' : (off : Int) < lim := by omega
+  simp [headS, h.off, h.lim, hb', hw, tagOf]
+
+theorem head_panic (pj : PJ) (e : Env) (off lim : Nat) (d : Val) (f : Nat) (h : Inv e off lim d)
+    (hb : ¬ off < lim ∨ pj.tape[off]? = none) :
+    exec goFuns f headS ⟨e, pj.tape⟩ = .panic := by
+  by_cases hb' : (off : Int) < lim
+  · have hn : pj.tape[off]? = none := by rcases hb with hb | hb; omega; exact hb
+    simp [headS, h.off, h.lim, hb', hn]
+  · simp [headS, h.off, h.lim, hb']
+
+/-- one iteration of the loop against one unfolding of the model -/
+def StepRel (pj : PJ) (kind : View.NumKind) (enc : Array UInt64 → Val) (nilv : Val) (a : View) (acc : Array UInt64)
+    (o : Out) : Prop :=
+  (∃ v e', o = .normal ⟨e', pj.tape⟩ ∧ a.off + 1 < a.lim ∧ Inv e' (a.off + 2) a.lim (enc (acc.push v)) ∧
+      ∀ fuel, View.asNum pj kind a acc (fuel + 1) = View.asNum pj kind ⟨a.lim, a.off + 2⟩ (acc.push v) fuel) ∨
+  (∃ e', o = .brk ⟨e', pj.tape⟩ ∧ e'.get "dst" = some (enc acc) ∧ ∀ fuel, View.asNum pj kind a acc (fuel + 1) = .ok acc) ∨
+  (∃ s, o = .ret s [nilv, .bool true] ∧ s.tape = pj.tape ∧
+      ∀ fuel, View.asNum pj kind a acc (fuel + 1) = .error .generic) ∨
+  (o = .panic ∧ ∀ fuel, View.asNum pj kind a acc (fuel + 1) = .panic)
+
+theorem inv_next {e : Env} {off lim : Nat} {d d' : Val} (h : Inv e (off + 1) lim d) :
+    Inv ((e.set "dst" d').set "a.off" (.int ((off : Int) + 1 + 1))) (off + 2) lim d' := by
+  refine ⟨?_, ?_, ?_⟩
+  · simp [Env.get_set]; omega
+  · simp [Env.get_set, h.lim]
+  · simp [Env.get_set]
+
+theorem inv_head {e : Env} {off lim : Nat} {d : Val} (t : UInt8) (h : Inv e off lim d) :
+    Inv ((e.set "tag" (.u8 t)).set "a.off" (.int ((off + 1 : Nat) : Int))) (off + 1) lim d := by
+  refine ⟨?_, ?_, ?_⟩
+  · simp [Env.get_set]
+  · simp [Env.get_set, h.lim]
+  · simp [Env.get_set, h.dst]
+
+
+theorem inv_val {e : Env} {off lim : Nat} {d : Val} (x : Val) (h : Inv e off lim d) :
+    Inv (e.set "val" x) off lim d := by
+  refine ⟨?_, ?_, ?_⟩
+  · simp [Env.get_set, h.off]
+  · simp [Env.get_set, h.lim]
+  · simp [Env.get_set, h.dst]
+
+theorem toInt64_ofInt64 (z : Int) (h1 : -(2^63 : Int) ≤ z) (h2 : z < 2^63) : toInt64 (ofInt64 z) = z := by
+  unfold toInt64 ofInt64
+  have hm : (z % 2^64).toNat < 2^64 := by omega
+  rw [UInt64.toNat_ofNat_of_lt' hm]
+  split <;> omega
+
+/-- `int64(f)` is an int64 -/
+theorem cvtFloatToInt64_range (b : UInt64) :
+    -(2^63 : Int) ≤ Iter.cvtFloatToInt64 b ∧ Iter.cvtFloatToInt64 b < 2^63 := by
+  unfold Iter.cvtFloatToInt64
+  split
+  · split <;> omega
+  · omega
+
+theorem toInt64_cvt (b : UInt64) : toInt64 (ofInt64 (Iter.cvtFloatToInt64 b)) = Iter.cvtFloatToInt64 b :=
+  toInt64_ofInt64 _ (cvtFloatToInt64_range b).1 (cvtFloatToInt64_range b).2
+
+theorem asFloat_tail (pj : PJ) (a : View) (acc : Array UInt64) (e : Env) (f : Nat) (w : UInt64)
+    (hb : a.off < a.lim) (hw : pj.tape[a.off]? = some w)
+    (ht : e.get "tag" = some (.u8 (tagOf w)))
+    (h : Inv e (a.off + 1) a.lim (.u64s acc.toList)) :
+    StepRel pj .asFloat (fun x => .u64s x.toList) (.u64s []) a acc
+      (exec goFuns f [swOf goArray_AsFloat, incrS] ⟨e, pj.tape⟩) := by
+  have hge : ¬ a.off ≥ a.lim := by omega
+  simp only [swOf, goArray_AsFloat, incrS, List.getD_cons_succ, List.getD_cons_zero]
+  by_cases hnum : tagOf w = 100 ∨ tagOf w = 108 ∨ tagOf w = 117
+  · by_cases hl : a.lim ≤ a.off + 1
+    · have hl' : (a.lim : Int) ≤ (a.off : Int) + 1 := by omega
+      refine .inr (.inr (.inl ⟨⟨e, pj.tape⟩, ?_, rfl, fun fuel => ?_⟩))
+      · rcases hnum with h1 | h1 | h1 <;> simp [ht, h.off, h.lim, h1, hl']
+      · rw [View.asNum, if_neg hge]
+        rcases hnum with h1 | h1 | h1 <;> simp [rd, hw, h1, hl, tagFloat, tagInteger, tagUint]
+    · have hl' : ¬ (a.lim : Int) ≤ (a.off : Int) + 1 := by omega
+      have hl2 : (0 : Int) ≤ (a.off : Int) + 1 ∧ (a.off : Int) + 1 < a.lim := by omega
+      have hl3 : a.off + 1 < a.lim := by omega
+      cases hv : pj.tape[a.off + 1]? with
+      | none =>
+        refine .inr (.inr (.inr ⟨?_, fun fuel => ?_⟩))
+        · rcases hnum with h1 | h1 | h1 <;> simp [ht, h.off, h.lim, h.dst, h1, hl', hl2, hv]
+        · rw [View.asNum, if_neg hge]
+          rcases hnum with h1 | h1 | h1 <;> simp [rd, hw, h1, hl, hv, tagFloat, tagInteger, tagUint]
+      | some v =>
+        rcases hnum with h1 | h1 | h1
+        · refine .inl ⟨v, _, ?_, hl3, inv_next h, fun fuel => ?_⟩
+          · simp [ht, h.off, h.lim, h.dst, h1, hl', hl2, hv]
+          · rw [View.asNum, if_neg hge]; simp [rd, hw, h1, hl, hv, tagFloat]
+        · refine .inl ⟨F64.ofInt (toInt64 v), _, ?_, hl3, inv_next h, fun fuel => ?_⟩
+          · simp [ht, h.off, h.lim, h.dst, h1, hl', hl2, hv]
+          · rw [View.asNum, if_neg hge]; simp [rd, hw, h1, hl, hv, tagFloat, tagInteger]
+        · refine .inl ⟨F64.ofNat v.toNat, _, ?_, hl3, inv_next h, fun fuel => ?_⟩
+          · simp [ht, h.off, h.lim, h.dst, h1, hl', hl2, hv]
+          · rw [View.asNum, if_neg hge]; simp [rd, hw, h1, hl, hv, tagFloat, tagInteger, tagUint]
+  · have n1 : ¬ tagOf w = 100 := fun hh => hnum (.inl hh)
+    have n2 : ¬ tagOf w = 108 := fun hh => hnum (.inr (.inl hh))
+    have n3 : ¬ tagOf w = 117 := fun hh => hnum (.inr (.inr hh))
+    have m1 : ¬ 100 = tagOf w := fun hh => n1 hh.symm
+    have m2 : ¬ 108 = tagOf w := fun hh => n2 hh.symm
+    have m3 : ¬ 117 = tagOf w := fun hh => n3 hh.symm
+    by_cases h4 : tagOf w = 93
+    · refine .inr (.inl ⟨e, ?_, h.dst, fun fuel => ?_⟩)
+      · simp [ht, h4]
+      · rw [View.asNum, if_neg hge]; simp [rd, hw, h4, tagFloat, tagInteger, tagUint, tagArrayEnd]
+    · have m4 : ¬ 93 = tagOf w := fun hh => h4 hh.symm
+      refine .inr (.inr (.inl ⟨⟨e, pj.tape⟩, ?_, rfl, fun fuel => ?_⟩))
+      · simp [ht, n1, n2, n3, m1, m2, m3, h4, m4]
+      · rw [View.asNum, if_neg hge]; simp [rd, hw, n1, n2, n3, h4, tagFloat, tagInteger, tagUint, tagArrayEnd]
+
+theorem asInteger_tail (pj : PJ) (a : View) (acc : Array UInt64) (e : Env) (f : Nat) (w : UInt64)
+    (hb : a.off < a.lim) (hw : pj.tape[a.off]? = some w)
+    (ht : e.get "tag" = some (.u8 (tagOf w)))
+    (h : Inv e (a.off + 1) a.lim (.ints (acc.toList.map toInt64))) :
+    StepRel pj .asInteger (fun x => .ints (x.toList.map toInt64)) (.ints []) a acc
+      (exec goFuns f [swOf goArray_AsInteger, incrS] ⟨e, pj.tape⟩) := by
+  have hge : ¬ a.off ≥ a.lim := by omega
+  simp only [swOf, goArray_AsInteger, incrS, List.getD_cons_succ, List.getD_cons_zero]
+  by_cases hnum : tagOf w = 100 ∨ tagOf w = 108 ∨ tagOf w = 117
+  · by_cases hl : a.lim ≤ a.off + 1
+    · have hl' : (a.lim : Int) ≤ (a.off : Int) + 1 := by omega
+      refine .inr (.inr (.inl ⟨⟨e, pj.tape⟩, ?_, rfl, fun fuel => ?_⟩))
+      · rcases hnum with h1 | h1 | h1 <;> simp [ht, h.off, h.lim, h1, hl']
+      · rw [View.asNum, if_neg hge]
+        rcases hnum with h1 | h1 | h1 <;> simp [rd, hw, h1, hl, tagFloat, tagInteger, tagUint]
+    · have hl' : ¬ (a.lim : Int) ≤ (a.off : Int) + 1 := by omega
+      have hl2 : (0 : Int) ≤ (a.off : Int) + 1 ∧ (a.off : Int) + 1 < a.lim := by omega
+      have hl3 : a.off + 1 < a.lim := by omega
+      cases hv : pj.tape[a.off + 1]? with
+      | none =>
+        refine .inr (.inr (.inr ⟨?_, fun fuel => ?_⟩))
+        · rcases hnum with h1 | h1 | h1 <;> simp [ht, h.off, h.lim, h.dst, h1, hl', hl2, hv]
+        · rw [View.asNum, if_neg hge]
+          rcases hnum with h1 | h1 | h1 <;> simp [rd, hw, h1, hl, hv, tagFloat, tagInteger, tagUint]
+      | some v =>
+        rcases hnum with h1 | h1 | h1
+        · -- float: the two range tests, against 2^63 and -2^63 on both sides
+          by_cases hg : F64.geInt v 9223372036854775808 = true
+          · refine .inr (.inr (.inl ⟨⟨e.set "val" (.u64 v), pj.tape⟩, ?_, rfl, fun fuel => ?_⟩))
+            · simp [ht, h.off, h.lim, h.dst, h1, hl', hl2, hv, fcmp, constAsFloat_maxInt64, hg]
+            · rw [View.asNum, if_neg hge]; simp [rd, hw, h1, hl, hv, tagFloat, hg]
+          · by_cases hlt : F64.ltInt v (-9223372036854775808) = true
+            · refine .inr (.inr (.inl ⟨⟨e.set "val" (.u64 v), pj.tape⟩, ?_, rfl, fun fuel => ?_⟩))
+              · simp [ht, h.off, h.lim, h.dst, h1, hl', hl2, hv, fcmp, constAsFloat_maxInt64, constAsFloat_minInt64,
+                  hg, hlt]
+              · rw [View.asNum, if_neg hge]; simp [rd, hw, h1, hl, hv, tagFloat, hg, hlt]
+            · refine .inl ⟨ofInt64 (Iter.cvtFloatToInt64 v), _, ?_, hl3, inv_next (inv_val (.u64 v) h), fun fuel => ?_⟩
+              · simp [ht, h.off, h.lim, h.dst, h1, hl', hl2, hv, fcmp, constAsFloat_maxInt64, constAsFloat_minInt64,
+                  hg, hlt, toInt64_cvt]
+              · rw [View.asNum, if_neg hge]; simp [rd, hw, h1, hl, hv, tagFloat, hg, hlt]
+        · refine .inl ⟨v, _, ?_, hl3, inv_next h, fun fuel => ?_⟩
+          · simp [ht, h.off, h.lim, h.dst, h1, hl', hl2, hv]
+          · rw [View.asNum, if_neg hge]; simp [rd, hw, h1, hl, hv, tagFloat, tagInteger]
+        · by_cases hbig : 9223372036854775807 < v.toNat
+          · refine .inr (.inr (.inl ⟨⟨e.set "val" (.u64 v), pj.tape⟩, ?_, rfl, fun fuel => ?_⟩))
+            · simp [ht, h.off, h.lim, h.dst, h1, hl', hl2, hv, maxInt64_lt, hbig]
+            · rw [View.asNum, if_neg hge]; simp [rd, hw, h1, hl, hv, tagFloat, tagInteger, tagUint, hbig]
+          · refine .inl ⟨v, _, ?_, hl3, inv_next (inv_val (.u64 v) h), fun fuel => ?_⟩
+            · simp [ht, h.off, h.lim, h.dst, h1, hl', hl2, hv, maxInt64_lt, hbig]
+            · rw [View.asNum, if_neg hge]; simp [rd, hw, h1, hl, hv, tagFloat, tagInteger, tagUint, hbig]
+  · have n1 : ¬ tagOf w = 100 := fun hh => hnum (.inl hh)
+    have n2 : ¬ tagOf w = 108 := fun hh => hnum (.inr (.inl hh))
+    have n3 : ¬ tagOf w = 117 := fun hh => hnum (.inr (.inr hh))
+    have m1 : ¬ 100 = tagOf w := fun hh => n1 hh.symm
+    have m2 : ¬ 108 = tagOf w := fun hh => n2 hh.symm
+    have m3 : ¬ 117 = tagOf w := fun hh => n3 hh.symm
+    by_cases h4 : tagOf w = 93
+    · refine .inr (.inl ⟨e, ?_, h.dst, fun fuel => ?_⟩)
+      · simp [ht, h4]
+      · rw [View.asNum, if_neg hge]; simp [rd, hw, h4, tagFloat, tagInteger, tagUint, tagArrayEnd]
+    · have m4 : ¬ 93 = tagOf w := fun hh => h4 hh.symm
+      refine .inr (.inr (.inl ⟨⟨e, pj.tape⟩, ?_, rfl, fun fuel => ?_⟩))
+      · simp [ht, n1, n2, n3, m1, m2, m3, h4, m4]
+      · rw [View.asNum, if_neg hge]; simp [rd, hw, n1, n2, n3, h4, tagFloat, tagInteger, tagUint, tagArrayEnd]
+
+theorem asUint64_tail (pj : PJ) (a : View) (acc : Array UInt64) (e : Env) (f : Nat) (w : UInt64)
+    (hb : a.off < a.lim) (hw : pj.tape[a.off]? = some w)
+    (ht : e.get "tag" = some (.u8 (tagOf w)))
+    (h : Inv e (a.off + 1) a.lim (.u64s acc.toList)) :
+    StepRel pj .asUint64 (fun x => .u64s x.toList) (.u64s []) a acc
+      (exec goFuns f [swOf goArray_AsUint64, incrS] ⟨e, pj.tape⟩) := by
+  have hge : ¬ a.off ≥ a.lim := by omega
+  simp only [swOf, goArray_AsUint64, incrS, List.getD_cons_succ, List.getD_cons_zero]
+  by_cases hnum : tagOf w = 100 ∨ tagOf w = 108 ∨ tagOf w = 117
+  · by_cases hl : a.lim ≤ a.off + 1
+    · have hl' : (a.lim : Int) ≤ (a.off : Int) + 1 := by omega
+      refine .inr (.inr (.inl ⟨⟨e, pj.tape⟩, ?_, rfl, fun fuel => ?_⟩))
+      · rcases hnum with h1 | h1 | h1 <;> simp [ht, h.off, h.lim, h1, hl']
+      · rw [View.asNum, if_neg hge]
+        rcases hnum with h1 | h1 | h1 <;> simp [rd, hw, h1, hl, tagFloat, tagInteger, tagUint]
+    · have hl' : ¬ (a.lim : Int) ≤ (a.off : Int) + 1 := by omega
+      have hl2 : (0 : Int) ≤ (a.off : Int) + 1 ∧ (a.off : Int) + 1 < a.lim := by omega
+      have hl3 : a.off + 1 < a.lim := by omega
+      cases hv : pj.tape[a.off + 1]? with
+      | none =>
+        refine .inr (.inr (.inr ⟨?_, fun fuel => ?_⟩))
+        · rcases hnum with h1 | h1 | h1 <;> simp [ht, h.off, h.lim, h.dst, h1, hl', hl2, hv]
+        · rw [View.asNum, if_neg hge]
+          rcases hnum with h1 | h1 | h1 <;> simp [rd, hw, h1, hl, hv, tagFloat, tagInteger, tagUint]
+      | some v =>
+        rcases hnum with h1 | h1 | h1
+        · -- float: the two range tests, against 2^64 and 0 on both sides
+          by_cases hg : F64.geInt v 18446744073709551616 = true
+          · refine .inr (.inr (.inl ⟨⟨e.set "val" (.u64 v), pj.tape⟩, ?_, rfl, fun fuel => ?_⟩))
+            · simp [ht, h.off, h.lim, h.dst, h1, hl', hl2, hv, fcmp, constAsFloat_maxUint64, hg]
+            · rw [View.asNum, if_neg hge]; simp [rd, hw, h1, hl, hv, tagFloat, hg]
+          · by_cases hlt : F64.ltInt v 0 = true
+            · refine .inr (.inr (.inl ⟨⟨e.set "val" (.u64 v), pj.tape⟩, ?_, rfl, fun fuel => ?_⟩))
+              · simp [ht, h.off, h.lim, h.dst, h1, hl', hl2, hv, fcmp, constAsFloat_maxUint64, constAsFloat_zero,
+                  hg, hlt]
+              · rw [View.asNum, if_neg hge]; simp [rd, hw, h1, hl, hv, tagFloat, hg, hlt]
+            · refine .inl ⟨UInt64.ofNat (Iter.cvtFloatToUint64 v), _, ?_, hl3, inv_next (inv_val (.u64 v) h),
+                fun fuel => ?_⟩
+              · simp [ht, h.off, h.lim, h.dst, h1, hl', hl2, hv, fcmp, constAsFloat_maxUint64, constAsFloat_zero,
+                  hg, hlt]
+              · rw [View.asNum, if_neg hge]; simp [rd, hw, h1, hl, hv, tagFloat, hg, hlt]
+        · by_cases hneg : toInt64 v < 0
+          · refine .inr (.inr (.inl ⟨⟨e.set "val" (.int (toInt64 v)), pj.tape⟩, ?_, rfl, fun fuel => ?_⟩))
+            · simp [ht, h.off, h.lim, h.dst, h1, hl', hl2, hv, hneg]
+            · rw [View.asNum, if_neg hge]; simp [rd, hw, h1, hl, hv, tagFloat, tagInteger, hneg]
+          · refine .inl ⟨v, _, ?_, hl3, inv_next (inv_val (.int (toInt64 v)) h), fun fuel => ?_⟩
+            · simp [ht, h.off, h.lim, h.dst, h1, hl', hl2, hv, hneg, ofInt_toInt64]
+            · rw [View.asNum, if_neg hge]; simp [rd, hw, h1, hl, hv, tagFloat, tagInteger, hneg]
+        · refine .inl ⟨v, _, ?_, hl3, inv_next h, fun fuel => ?_⟩
+          · simp [ht, h.off, h.lim, h.dst, h1, hl', hl2, hv]
+          · rw [View.asNum, if_neg hge]; simp [rd, hw, h1, hl, hv, tagFloat, tagInteger, tagUint]
+  · have n1 : ¬ tagOf w = 100 := fun hh => hnum (.inl hh)
+    have n2 : ¬ tagOf w = 108 := fun hh => hnum (.inr (.inl hh))
+    have n3 : ¬ tagOf w = 117 := fun hh => hnum (.inr (.inr hh))
+    have m1 : ¬ 100 = tagOf w := fun hh => n1 hh.symm
+    have m2 : ¬ 108 = tagOf w := fun hh => n2 hh.symm
+    have m3 : ¬ 117 = tagOf w := fun hh => n3 hh.symm
+    by_cases h4 : tagOf w = 93
+    · refine .inr (.inl ⟨e, ?_, h.dst, fun fuel => ?_⟩)
+      · simp [ht, h4]
+      · rw [View.asNum, if_neg hge]; simp [rd, hw, h4, tagFloat, tagInteger, tagUint, tagArrayEnd]
+    · have m4 : ¬ 93 = tagOf w := fun hh => h4 hh.symm
+      refine .inr (.inr (.inl ⟨⟨e, pj.tape⟩, ?_, rfl, fun fuel => ?_⟩))
+      · simp [ht, n1, n2, n3, m1, m2, m3, h4, m4]
+      · rw [View.asNum, if_neg hge]; simp [rd, hw, n1, n2, n3, h4, tagFloat, tagInteger, tagUint, tagArrayEnd]
+
+/-! ## one iteration: head, then the switch and `a.off++` -/
+
+theorem step_of_tail (pj : PJ) (kind : View.NumKind) (enc : Array UInt64 → Val) (nilv : Val) (sw : Stmt)
+    (htail : ∀ (a : View) (acc : Array UInt64) (e : Env) (f : Nat) (w : UInt64), a.off < a.lim →
+      pj.tape[a.off]? = some w → e.get "tag" = some (.u8 (tagOf w)) → Inv e (a.off + 1) a.lim (enc acc) →
+      StepRel pj kind enc nilv a acc (exec goFuns f [sw, incrS] ⟨e, pj.tape⟩))
+    (a : View) (acc : Array UInt64) (e : Env) (f : Nat) (h : Inv e a.off a.lim (enc acc)) :
+    StepRel pj kind enc nilv a acc (exec goFuns f (headS ++ [sw, incrS]) ⟨e, pj.tape⟩) := by
+  rw [exec_append]
+  by_cases hb : a.off < a.lim
+  · cases hw : pj.tape[a.off]? with
+    | none =>
+      rw [head_panic pj e _ _ _ f h (.inr hw)]
+      refine .inr (.inr (.inr ⟨rfl, fun fuel => ?_⟩))
+      rw [View.asNum]; simp [rd, hw, hb]
+    | some w =>
+      rw [head_ok pj e _ _ _ f w h hb hw]
+      exact htail a acc _ f w hb hw (by simp) (inv_head _ h)
+  · rw [head_panic pj e _ _ _ f h (.inl hb)]
+    refine .inr (.inr (.inr ⟨rfl, fun fuel => ?_⟩))
+    rw [View.asNum]; simp [hb]
+
+/-! ## the loop -/
+
+/-- the `for` statement against the model, same fuel on both sides -/
+def LoopRel (pj : PJ) (enc : Array UInt64 → Val) (nilv : Val) (short : Prop) (o : Out) (r : Res (Array UInt64)) : Prop :=
+  match r with
+  | .ok ws => ∃ e', o = .normal ⟨e', pj.tape⟩ ∧ e'.get "dst" = some (enc ws)
+  | .error _ => ∃ s, o = .ret s [nilv, .bool true] ∧ s.tape = pj.tape
+  | .panic => o = .panic
+  | .diverge => o = .diverge ∧ short
+
+theorem loop_sim (pj : PJ) (kind : View.NumKind) (enc : Array UInt64 → Val) (nilv : Val) (body : List Stmt)
+    (hstep : ∀ (a : View) (acc : Array UInt64) (e : Env) (f : Nat), Inv e a.off a.lim (enc acc) →
+      StepRel pj kind enc nilv a acc (exec goFuns f body ⟨e, pj.tape⟩)) :
+    ∀ (fuel : Nat) (a : View) (acc : Array UInt64) (e : Env), Inv e a.off a.lim (enc acc) →
+      LoopRel pj enc nilv (fuel ≤ (a.lim - a.off) / 2)
+        (exec1 goFuns fuel (.loop body) ⟨e, pj.tape⟩) (View.asNum pj kind a acc fuel) := by
+  intro fuel
+  induction fuel with
+  | zero =>
+    intro a acc e h
+    simp [View.asNum, LoopRel]
+  | succ f ih =>
+    intro a acc e h
+    rw [exec1]
+    rcases hstep a acc e f h with ⟨v, e', ho, hlt, hinv, hm⟩ | ⟨e', ho, hd, hm⟩ | ⟨s, ho, hs, hm⟩ | ⟨ho, hm⟩
+    · rw [ho, hm f]
+      have := ih ⟨a.lim, a.off + 2⟩ (acc.push v) e' hinv
+      revert this
+      simp only []
+      cases View.asNum pj kind ⟨a.lim, a.off + 2⟩ (acc.push v) f with
+      | diverge =>
+        simp only [LoopRel]
+        rintro ⟨h1, h2⟩
+        exact ⟨h1, by omega⟩
+      | ok ws => exact id
+      | error _ => exact id
+      | panic => exact id
+    · rw [ho, hm f]
+      exact ⟨e', rfl, hd⟩
+    · rw [ho, hm f]
+      exact ⟨s, rfl, hs⟩
+    · rw [ho, hm f]
+      rfl
+
+/-! ## the whole function -/
+
+/-- the statements before the loop: the capacity estimate (dead: only `make`'s capacity depends on it) and `dst` -/
+theorem pre_exec (pj : PJ) (e : Env) (off lim : Nat) (nilE : Expr) (nilv : Val) (f : Nat)
+    (hn : ∀ s, evalE s nilE = .val nilv)
+    (ho : e.get "a.off" = some (.int off)) (hl : e.get "a.lim" = some (.int lim)) :
+    ∃ e', exec goFuns f (preS nilE) ⟨e, pj.tape⟩ = .normal ⟨e', pj.tape⟩ ∧ Inv e' off lim nilv := by
+  by_cases hneg : ((lim : Int) - off - 1).tdiv 2 < 0
+  · refine ⟨((e.set "lenEst" (.int (((lim : Int) - off - 1).tdiv 2))).set "lenEst" (.int 0)).set "dst" nilv, ?_, ?_, ?_, ?_⟩
+    · simp [preS, ho, hl, hn, hneg]
+    · simp [ho]
+    · simp [hl]
+    · simp
+  · refine ⟨(e.set "lenEst" (.int (((lim : Int) - off - 1).tdiv 2))).set "dst" nilv, ?_, ?_, ?_, ?_⟩
+    · simp [preS, ho, hl, hn, hneg]
+    · simp [ho]
+    · simp [hl]
+    · simp
+
+/-- the store of a call on the view `v`: the receiver's two fields -/
+def envA (v : View) : Env := [("a.off", .int v.off), ("a.lim", .int v.lim)]
+
+/-- outcome of the interpreter on `Array.As*` vs the model, the SAME fuel on both sides:
+    * model `.ok ws`: returns the encoded slice and a nil error;
+    * model `.error _`: returns the nil slice and a non-nil error;
+    * model `.panic`: the interpreter panics (index out of range);
+    * model `.diverge`: the interpreter is out of fuel too, and the fuel was at most `(lim - off) / 2`;
+    the interpreter is never `stuck`; the tape is unchanged. -/
+def SimA (pj : PJ) (enc : Array UInt64 → Val) (nilv : Val) (v : View) (fuel : Nat) (o : Out)
+    (r : Res (Array UInt64)) : Prop :=
+  match r with
+  | .ok ws => ∃ s, o = .ret s [enc ws, .bool false] ∧ s.tape = pj.tape
+  | .error _ => ∃ s, o = .ret s [nilv, .bool true] ∧ s.tape = pj.tape
+  | .panic => o = .panic
+  | .diverge => o = .diverge ∧ fuel ≤ (v.lim - v.off) / 2
+
+theorem fun_sim (pj : PJ) (kind : View.NumKind) (enc : Array UInt64 → Val) (nilv : Val) (nilE : Expr) (sw : Stmt)
+    (fd : FunDef) (hbody : fd.body = preS nilE ++ [.loop (headS ++ [sw, incrS]), retS])
+    (hn : ∀ s, evalE s nilE = .val nilv) (henc : enc #[] = nilv)
+    (htail : ∀ (a : View) (acc : Array UInt64) (e : Env) (f : Nat) (w : UInt64), a.off < a.lim →
+      pj.tape[a.off]? = some w → e.get "tag" = some (.u8 (tagOf w)) → Inv e (a.off + 1) a.lim (enc acc) →
+      StepRel pj kind enc nilv a acc (exec goFuns f [sw, incrS] ⟨e, pj.tape⟩))
+    (v : View) (fuel : Nat) :
+    SimA pj enc nilv v fuel (runFun goFuns fd fuel ⟨envA v, pj.tape⟩) (View.asNum pj kind v #[] fuel) := by
+  obtain ⟨e0, hpre, hinv⟩ := pre_exec pj (envA v) v.off v.lim nilE nilv fuel hn (by simp [envA, Env.get])
+    (by simp [envA, Env.get])
+  have hloop := loop_sim pj kind enc nilv (headS ++ [sw, incrS]) (step_of_tail pj kind enc nilv sw htail) fuel v #[] e0
+    (by rw [henc]; exact hinv)
+  unfold runFun
+  rw [hbody, exec_append, hpre]
+  simp only []
+  rw [exec]
+  revert hloop
+  cases View.asNum pj kind v #[] fuel with
+  | ok ws =>
+    rintro ⟨e', ho, hd⟩
+    rw [ho]
+    exact ⟨⟨e', pj.tape⟩, by simp [retS, hd], rfl⟩
+  | error er =>
+    rintro ⟨s, ho, hs⟩
+    rw [ho]
+    exact ⟨s, rfl, hs⟩
+  | panic =>
+    intro ho
+    simp only [LoopRel] at ho
+    rw [ho]
+    rfl
+  | diverge =>
+    rintro ⟨ho, hs⟩
+    rw [ho]
+    exact ⟨rfl, hs⟩
+
+/-! ## reading `SimA`: each line is an equivalence -/
+
+section Iff
+variable {pj : PJ} {enc : Array UInt64 → Val} {nilv : Val} {v : View} {fuel : Nat} {o : Out} {r : Res (Array UInt64)}
+
+/-- model `.ok ws` ⇔ the interpreter returns `enc ws` and a nil error (`enc` injective) -/
+theorem SimA.ok_iff (h : SimA pj enc nilv v fuel o r) (ws : Array UInt64) (hinj : ∀ b, enc b = enc ws → b = ws) :
+    r = .ok ws ↔ ∃ s, o = .ret s [enc ws, .bool false] := by
+  constructor
+  · intro hr; subst hr; obtain ⟨s, hs, _⟩ := h; exact ⟨s, hs⟩
+  · rintro ⟨s, hs⟩
+    cases r with
+    | ok b =>
+      obtain ⟨s', hs', _⟩ := h
+      rw [hs'] at hs
+      injection hs with _ hv
+      injection hv with hv _
+      rw [hinj b hv]
+    | error e =>
+      obtain ⟨s', hs', _⟩ := h
+      rw [hs'] at hs
+      injection hs with _ hv
+      simp at hv
+    | panic => simp only [SimA] at h; rw [h] at hs; cases hs
+    | diverge => obtain ⟨h, _⟩ := h; rw [h] at hs; cases hs
+
+/-- model `.error _` ⇔ the interpreter returns the nil slice and a non-nil error -/
+theorem SimA.error_iff (h : SimA pj enc nilv v fuel o r) :
+    (∃ e, r = .error e) ↔ ∃ s, o = .ret s [nilv, .bool true] := by
+  constructor
+  · rintro ⟨e, hr⟩; subst hr; obtain ⟨s, hs, _⟩ := h; exact ⟨s, hs⟩
+  · rintro ⟨s, hs⟩
+    cases r with
+    | ok b =>
+      obtain ⟨s', hs', _⟩ := h
+      rw [hs'] at hs
+      injection hs with _ hv
+      simp at hv
+    | error e => exact ⟨e, rfl⟩
+    | panic => simp only [SimA] at h; rw [h] at hs; cases hs
+    | diverge => obtain ⟨h, _⟩ := h; rw [h] at hs; cases hs
+
+/-- model `.panic` ⇔ the interpreter panics -/
+theorem SimA.panic_iff (h : SimA pj enc nilv v fuel o r) : r = .panic ↔ o = .panic := by
+  constructor
+  · intro hr; subst hr; exact h
+  · intro ho
+    cases r with
+    | ok b => obtain ⟨s', hs', _⟩ := h; rw [hs'] at ho; cases ho
+    | error e => obtain ⟨s', hs', _⟩ := h; rw [hs'] at ho; cases ho
+    | panic => rfl
+    | diverge => obtain ⟨h, _⟩ := h; rw [h] at ho; cases ho
+
+/-- model out of fuel ⇔ interpreter out of fuel (same fuel on both sides) -/
+theorem SimA.diverge_iff (h : SimA pj enc nilv v fuel o r) : r = .diverge ↔ o = .diverge := by
+  constructor
+  · intro hr; subst hr; exact h.1
+  · intro ho
+    cases r with
+    | ok b => obtain ⟨s', hs', _⟩ := h; rw [hs'] at ho; cases ho
+    | error e => obtain ⟨s', hs', _⟩ := h; rw [hs'] at ho; cases ho
+    | panic => simp only [SimA] at h; rw [h] at ho; cases ho
+    | diverge => rfl
+
+/-- `(lim - off) / 2 + 1` units of fuel are enough: each iteration that does not end the loop consumes two words of
+    the view -/
+theorem SimA.enough (h : SimA pj enc nilv v fuel o r) (hf : (v.lim - v.off) / 2 + 1 ≤ fuel) :
+    r ≠ .diverge ∧ o ≠ .diverge := by
+  have hr : r ≠ .diverge := by
+    intro hr; subst hr; have := h.2; omega
+  exact ⟨hr, fun ho => hr (h.diverge_iff.mpr ho)⟩
+
+/-- the interpreter is never `stuck`, never leaves the loop by a stray `break`/`continue`, never falls off the end -/
+theorem SimA.shape (h : SimA pj enc nilv v fuel o r) : (∃ s vs, o = .ret s vs ∧ s.tape = pj.tape) ∨ o = .panic ∨ o = .diverge := by
+  cases r with
+  | ok b => obtain ⟨s', hs', ht⟩ := h; exact .inl ⟨s', _, hs', ht⟩
+  | error e => obtain ⟨s', hs', ht⟩ := h; exact .inl ⟨s', _, hs', ht⟩
+  | panic => exact .inr (.inl h)
+  | diverge => exact .inr (.inr h.1)
+end Iff
+
+/-! ## the three functions -/
+
+theorem toInt64_inj {x y : UInt64} (h : toInt64 x = toInt64 y) : x = y := by
+  rw [← ofInt_toInt64 x, ← ofInt_toInt64 y, h]
+
+theorem encU_inj (a b : Array UInt64) (h : Val.u64s b.toList = Val.u64s a.toList) : b = a := by
+  injection h with h
+  exact Array.toList_inj.mp h
+
+theorem map_toInt64_inj : ∀ (l₁ l₂ : List UInt64), l₁.map toInt64 = l₂.map toInt64 → l₁ = l₂
+  | [], [], _ => rfl
+  | [], _ :: _, h => by simp at h
+  | _ :: _, [], h => by simp at h
+  | x :: xs, y :: ys, h => by
+    simp only [List.map_cons, List.cons.injEq] at h
+    rw [toInt64_inj h.1, map_toInt64_inj xs ys h.2]
+
+theorem encI_inj (a b : Array UInt64) (h : Val.ints (b.toList.map toInt64) = Val.ints (a.toList.map toInt64)) :
+    b = a := by
+  injection h with h
+  exact Array.toList_inj.mp (map_toInt64_inj _ _ h)
+
+/-- `Array.AsFloat` (parsed_array.go:149): floats as their bits -/
+theorem asFloat_sim (pj : PJ) (v : View) (fuel : Nat) :
+    SimA pj (fun ws => .u64s ws.toList) (.u64s []) v fuel
+      (runFun goFuns goArray_AsFloat fuel ⟨envA v, pj.tape⟩) (View.asNum pj .asFloat v #[] fuel) :=
+  fun_sim pj .asFloat _ _ .nilU _ _ asFloat_body (fun _ => rfl) rfl (asFloat_tail pj) v fuel
+
+/-- `Array.AsInteger` (parsed_array.go:189): the model's two's-complement words are the returned `int64`s -/
+theorem asInteger_sim (pj : PJ) (v : View) (fuel : Nat) :
+    SimA pj (fun ws => .ints (ws.toList.map toInt64)) (.ints []) v fuel
+      (runFun goFuns goArray_AsInteger fuel ⟨envA v, pj.tape⟩) (View.asNum pj .asInteger v #[] fuel) :=
+  fun_sim pj .asInteger _ _ .nilI _ _ asInteger_body (fun _ => rfl) rfl (asInteger_tail pj) v fuel
+
+/-- `Array.AsUint64` (parsed_array.go:241) -/
+theorem asUint64_sim (pj : PJ) (v : View) (fuel : Nat) :
+    SimA pj (fun ws => .u64s ws.toList) (.u64s []) v fuel
+      (runFun goFuns goArray_AsUint64 fuel ⟨envA v, pj.tape⟩) (View.asNum pj .asUint64 v #[] fuel) :=
+  fun_sim pj .asUint64 _ _ .nilU _ _ asUint64_body (fun _ => rfl) rfl (asUint64_tail pj) v fuel
+
+section Ties
+variable (pj : PJ) (v : View) (fuel : Nat)
+
+/-- the interpreter's outcome on the view `v` of the tape of `pj` -/
+abbrev run (fd : FunDef) : Out :=
+  runFun goFuns fd fuel ⟨[("a.off", .int v.off), ("a.lim", .int v.lim)], pj.tape⟩
+
+theorem asFloat_ok_iff (ws : Array UInt64) :
+    View.asNum pj .asFloat v #[] fuel = .ok ws ↔
+      ∃ s, run pj v fuel goArray_AsFloat = .ret s [.u64s ws.toList, .bool false] :=
+  (asFloat_sim pj v fuel).ok_iff ws (encU_inj ws)
+theorem asFloat_error_iff :
+    (∃ e, View.asNum pj .asFloat v #[] fuel = .error e) ↔
+      ∃ s, run pj v fuel goArray_AsFloat = .ret s [.u64s [], .bool true] :=
+  (asFloat_sim pj v fuel).error_iff
+theorem asFloat_panic_iff :
+    View.asNum pj .asFloat v #[] fuel = .panic ↔ run pj v fuel goArray_AsFloat = .panic :=
+  (asFloat_sim pj v fuel).panic_iff
+theorem asFloat_diverge_iff :
+    View.asNum pj .asFloat v #[] fuel = .diverge ↔ run pj v fuel goArray_AsFloat = .diverge :=
+  (asFloat_sim pj v fuel).diverge_iff
+
+theorem asInteger_ok_iff (ws : Array UInt64) :
+    View.asNum pj .asInteger v #[] fuel = .ok ws ↔
+      ∃ s, run pj v fuel goArray_AsInteger = .ret s [.ints (ws.toList.map toInt64), .bool false] :=
+  (asInteger_sim pj v fuel).ok_iff ws (encI_inj ws)
+theorem asInteger_error_iff :
+    (∃ e, View.asNum pj .asInteger v #[] fuel = .error e) ↔
+      ∃ s, run pj v fuel goArray_AsInteger = .ret s [.ints [], .bool true] :=
+  (asInteger_sim pj v fuel).error_iff
+theorem asInteger_panic_iff :
+    View.asNum pj .asInteger v #[] fuel = .panic ↔ run pj v fuel goArray_AsInteger = .panic :=
+  (asInteger_sim pj v fuel).panic_iff
+theorem asInteger_diverge_iff :
+    View.asNum pj .asInteger v #[] fuel = .diverge ↔ run pj v fuel goArray_AsInteger = .diverge :=
+  (asInteger_sim pj v fuel).diverge_iff
+
+theorem asUint64_ok_iff (ws : Array UInt64) :
+    View.asNum pj .asUint64 v #[] fuel = .ok ws ↔
+      ∃ s, run pj v fuel goArray_AsUint64 = .ret s [.u64s ws.toList, .bool false] :=
+  (asUint64_sim pj v fuel).ok_iff ws (encU_inj ws)
+theorem asUint64_error_iff :
+    (∃ e, View.asNum pj .asUint64 v #[] fuel = .error e) ↔
+      ∃ s, run pj v fuel goArray_AsUint64 = .ret s [.u64s [], .bool true] :=
+  (asUint64_sim pj v fuel).error_iff
+theorem asUint64_panic_iff :
+    View.asNum pj .asUint64 v #[] fuel = .panic ↔ run pj v fuel goArray_AsUint64 = .panic :=
+  (asUint64_sim pj v fuel).panic_iff
+theorem asUint64_diverge_iff :
+    View.asNum pj .asUint64 v #[] fuel = .diverge ↔ run pj v fuel goArray_AsUint64 = .diverge :=
+  (asUint64_sim pj v fuel).diverge_iff
+
+/-- with `(lim - off) / 2 + 1` units of fuel neither side runs out, whatever the kind -/
+theorem asNum_enough (kind : View.NumKind) (hf : (v.lim - v.off) / 2 + 1 ≤ fuel) :
+    View.asNum pj kind v #[] fuel ≠ .diverge := by
+  cases kind
+  · exact ((asFloat_sim pj v fuel).enough hf).1
+  · exact ((asInteger_sim pj v fuel).enough hf).1
+  · exact ((asUint64_sim pj v fuel).enough hf).1
+
+end Ties
+
+/-- The source tie of the bulk numeric accessors: `View.asNum` at its three kinds is the meaning of the three
+    regenerated syntax trees — for every document, every view, every fuel (the same on both sides; `(lim - off)/2 + 1`
+    units are enough). -/
+theorem go_arrnum_source_tie (pj : PJ) (v : View) (fuel : Nat) :
+    SimA pj (fun ws => .u64s ws.toList) (.u64s []) v fuel
+      (runFun goFuns goArray_AsFloat fuel ⟨[("a.off", .int v.off), ("a.lim", .int v.lim)], pj.tape⟩)
+      (View.asNum pj .asFloat v #[] fuel) ∧
+    SimA pj (fun ws => .ints (ws.toList.map toInt64)) (.ints []) v fuel
+      (runFun goFuns goArray_AsInteger fuel ⟨[("a.off", .int v.off), ("a.lim", .int v.lim)], pj.tape⟩)
+      (View.asNum pj .asInteger v #[] fuel) ∧
+    SimA pj (fun ws => .u64s ws.toList) (.u64s []) v fuel
+      (runFun goFuns goArray_AsUint64 fuel ⟨[("a.off", .int v.off), ("a.lim", .int v.lim)], pj.tape⟩)
+      (View.asNum pj .asUint64 v #[] fuel) ∧
+    ((v.lim - v.off) / 2 + 1 ≤ fuel → ∀ kind, View.asNum pj kind v #[] fuel ≠ .diverge) :=
+  ⟨asFloat_sim pj v fuel, asInteger_sim pj v fuel, asUint64_sim pj v fuel, fun hf kind => asNum_enough pj v fuel kind hf⟩
+
+/-! ## boundary replays (model evaluated by the kernel, interpreter side obtained THROUGH the tie theorems)
+
+No difference between model and source was found.  The replays pin the places where one was most likely: the float
+range tests of `AsUint64` (D5: the tree once compared with `math.MaxInt64` there) and the unguarded `a.tape.Tape[a.off]`
+at the loop head. -/
+
+/-- what a result holds, as decidable data -/
+def resCode : Res (Array UInt64) → Option (Option (List UInt64))
+  | .ok ws => some (some ws.toList)
+  | .error _ => some none
+  | .panic => none
+  | .diverge => some (some [0xdead])
+
+theorem resCode_ok {r : Res (Array UInt64)} {l : List UInt64} (hl : l ≠ [0xdead]) (h : resCode r = some (some l)) :
+    r = .ok l.toArray := by
+  cases r with
+  | ok ws => simp only [resCode, Option.some.injEq] at h; rw [← h]
+  | error e => simp [resCode] at h
+  | panic => simp [resCode] at h
+  | diverge => simp only [resCode, Option.some.injEq] at h; exact absurd h.symm hl
+
+theorem resCode_error {r : Res (Array UInt64)} (h : resCode r = some none) : ∃ e, r = .error e := by
+  cases r with
+  | ok ws => simp [resCode] at h
+  | error e => exact ⟨e, rfl⟩
+  | panic => simp [resCode] at h
+  | diverge => simp [resCode] at h
+
+theorem resCode_panic {r : Res (Array UInt64)} (h : resCode r = none) : r = .panic := by
+  cases r <;> simp [resCode] at h
+  rfl
+
+/-- the inner view of `[x]` for one float `x` given by its bits -/
+def oneFloat (bits : UInt64) : PJ := ⟨#[0x6400000000000000, bits, 0x5D00000000000000], #[], #[]⟩
+
+/-- `AsUint64` on `[9223372036854775808.0]` (2^63, above `math.MaxInt64`): accepted, value 2^63 — model and tree -/
+example : ∃ s, run (oneFloat 0x43E0000000000000) ⟨3, 0⟩ 2 goArray_AsUint64 =
+    .ret s [.u64s [9223372036854775808], .bool false] :=
+  (asUint64_ok_iff _ _ _ _).mp (resCode_ok (by decide) (by decide +kernel))
+
+/-- `AsUint64` on `[18446744073709551616.0]` (2^64 = `float64(math.MaxUint64)`): rejected by `>=` — model and tree -/
+example : ∃ s, run (oneFloat 0x43F0000000000000) ⟨3, 0⟩ 2 goArray_AsUint64 = .ret s [.u64s [], .bool true] :=
+  (asUint64_error_iff _ _ _).mp (resCode_error (by decide +kernel))
+
+/-- `AsInteger` on `[9223372036854775808.0]` (2^63 = `float64(math.MaxInt64)`): rejected by `>=` — model and tree -/
+example : ∃ s, run (oneFloat 0x43E0000000000000) ⟨3, 0⟩ 2 goArray_AsInteger = .ret s [.ints [], .bool true] :=
+  (asInteger_error_iff _ _ _).mp (resCode_error (by decide +kernel))
+
+/-- `AsInteger` on `[-9223372036854775808.0]` (-2^63): accepted, `math.MinInt64` -/
+example : ∃ s, run (oneFloat 0xC3E0000000000000) ⟨3, 0⟩ 2 goArray_AsInteger =
+    .ret s [.ints [-9223372036854775808], .bool false] :=
+  (asInteger_ok_iff _ _ _ #[0x8000000000000000]).mp (resCode_ok (by decide) (by decide +kernel))
+
+/-- a view that does not end with `]` (here: cut after the element): `a.tape.Tape[a.off]` at the loop head panics —
+    model and tree — although the view lies inside the tape -/
+example : run (oneFloat 0x3FF0000000000000) ⟨2, 0⟩ 2 goArray_AsFloat = .panic :=
+  (asFloat_panic_iff _ _ _).mp (resCode_panic (by decide +kernel))
+
+/-- … and with one word less the element's value is missing: an error, not a panic (`len(a.tape.Tape) <= a.off`) -/
+example : ∃ s, run (oneFloat 0x3FF0000000000000) ⟨1, 0⟩ 1 goArray_AsFloat = .ret s [.u64s [], .bool true] :=
+  (asFloat_error_iff _ _ _).mp (resCode_error (by decide +kernel))
+
+end SJ.GoArrNum
